@@ -2,28 +2,19 @@ From Coq Require Import List NArith Bool Arith.
 Import ListNotations.
 From PV Require Import Regex Base LexTables NodeModel ParserBase ParserDecl ParserMain Api.
 
-(* outcome of the whole-pipeline model on a text, coordinates erased, token counter dropped *)
-Definition outcome_str (text: str) : str :=
-  match run_parse text (s2l "f.c") with
-  | Ok (ast, _) => s2l "OK|" ++ show_ast (N.to_nat 1000) false ast
-  | Err l m => s2l "E|" ++ show_loc l ++ s2l ": " ++ m
-  | Crash k => s2l "C|" ++ crash_name k
-  | OutOfFuel => s2l "R"
-  end.
-
 (* array of pointers to functions returning pointer to int: derivations from the identifier outward *)
-Example C03_inside_out :
+Example ex_C03_inside_out :
   outcome_str (s2l "int *(*fp[3])(char, int *);") = s2l "OK|(FileAST [(Decl 'fp' [] [] [] [] (ArrayDecl (PtrDecl [] (FuncDecl (ParamList [(Typename None [] None (TypeDecl None [] None (IdentifierType ['char']))),(Typename None [] None (PtrDecl [] (TypeDecl None [] None (IdentifierType ['int']))))]) (PtrDecl [] (TypeDecl 'fp' [] None (IdentifierType ['int']))))) (Constant 'int' '3') []) None None)])".
 Proof. vm_compute. reflexivity. Qed.
 (* specifiers shared by several declarators apply to each *)
-Example C03_shared_specifiers :
+Example ex_C03_shared_specifiers :
   outcome_str (s2l "static const int a, *b, c[2];") = s2l "OK|(FileAST [(Decl 'a' ['const'] [] ['static'] [] (TypeDecl 'a' ['const'] None (IdentifierType ['int'])) None None),(Decl 'b' ['const'] [] ['static'] [] (PtrDecl [] (TypeDecl 'b' ['const'] None (IdentifierType ['int']))) None None),(Decl 'c' ['const'] [] ['static'] [] (ArrayDecl (TypeDecl 'c' ['const'] None (IdentifierType ['int'])) (Constant 'int' '2') []) None None)])".
 Proof. vm_compute. reflexivity. Qed.
 (* _Atomic(T) means the _Atomic-qualified T *)
-Example C03_atomic_specifier :
+Example ex_C03_atomic_specifier :
   outcome_str (s2l "_Atomic(int) x;") = s2l "OK|(FileAST [(Decl 'x' ['_Atomic'] [] [] [] (TypeDecl 'x' ['_Atomic'] None (IdentifierType ['int'])) None None)])".
 Proof. vm_compute. reflexivity. Qed.
 (* witness: with several declarators the shared _Atomic(...) node is mutated - the second declaration is named x as well *)
-Example C03_atomic_shared_refuted :
+Example ex_C03_atomic_shared_refuted :
   outcome_str (s2l "_Atomic(int) x, *p;") = s2l "OK|(FileAST [(Decl 'x' ['_Atomic'] [] [] [] (TypeDecl 'x' ['_Atomic'] None (IdentifierType ['int'])) None None),(Decl 'p' ['_Atomic'] [] [] [] (PtrDecl [] (TypeDecl 'x' ['_Atomic'] None (IdentifierType ['int']))) None None)])".
 Proof. vm_compute. reflexivity. Qed.
